@@ -173,6 +173,13 @@ func c12Gen(r *vc.Rand, tier string) []c12Case {
 		rcs := []int64{1}
 		if hasResult(t) {
 			rcs = []int64{1, 0}
+			// result-code bytes outside the enum: the layout attaches a message to code 0 only
+			for v := int64(2); v < 256; v++ {
+				if tier == "quick" && v > 4 && v != 127 && v != 128 && v != 255 {
+					continue
+				}
+				out = append(out, build(t, nil, v, ""))
+			}
 		}
 		for _, rc := range rcs {
 			msg := ""
